@@ -140,11 +140,26 @@ def check(run, prog, tier):
     cases = 0
     failures = {}
     H = fm.size
-    for blen, size, pv, mtv, rcv in itertools.product(
-            (0, 1, H - 1, H, H + 1, H + 6, H + 7), (0, 7, 8, 9, 14, 15, 16, 0xFFFF + 9),
-            (0, 1, 2), (min(mt_vals), max(mt_vals), bad_mt), (min(rc_vals), max(rc_vals), bad_rc)):
+    big = bytes((i * 7 + 3) % 251 for i in range(H + 0x10010))
+    combos = []
+    from ..absint import constants_compared
+    size_term = ("item", unp, const(2))
+    extra_sizes = set()
+    for c in constants_compared([c for p in paths for c, _, _, _ in p.conds], lambda tm: tm == size_term):
+        extra_sizes |= {c - 1, c, c + 1, c + 8, c + 9}  # every constant the code compares the length field with
+    for size in sorted({0, 7, 8, 9, 14, 15, 16, 0xFFFF, 0x10000, 0x10007, 0xFFFF + 9} | {x for x in extra_sizes if 0 <= x <= 0x20000}):
+        # buffer lengths around every guard boundary, including 'exactly the message' and 'message + 2'
+        blens = {0, 1, H - 1, H, H + 1, H + 6, H + 7}
+        if size >= 8:
+            blens |= {H + size - 8 - 1, H + size - 8, H + size - 8 + 2}
+        for blen in sorted(b for b in blens if b >= 0):
+            combos.append((blen, size))
+    for (blen, size), pv, mtv, rcv in itertools.product(
+            combos, (0, 1, 2), (min(mt_vals), max(mt_vals), bad_mt), (min(rc_vals), max(rc_vals), bad_rc)):
+        if size > 0x100 and (pv, mtv, rcv) != (1, min(mt_vals), min(rc_vals)) and blen > H + 8:
+            continue  # large buffers only for the well-formed header (keeps the case count reasonable)
         cases += 1
-        data = bytes((i * 7 + 3) % 251 for i in range(blen))
+        data = big[:blen]
         U = (0x1234, 0x5678, size, 0x9ABC, 0xDEF0, pv, 0x42, mtv, rcv)
 
         def leaf(tm):
